@@ -57,7 +57,7 @@ def main():
                 "what_it_changes": notes.split("\n")[0].lstrip("# ").strip(),
                 "needs_to_manifest": first_para(notes, "needed to manifest|to manifest|needs"),
                 "confirmed_in_scratch_worktree": {kk: conf.get(kk) for kk in ("applies", "compiles", "suite_passes_with_change", "suite_passed_count", "demo_cmd", "demo_fails_with_change", "demo_passes_without_change") if kk in conf},
-                "what_was_run": "git -C /repo apply patch.diff; ./check %s quick; git -C /repo checkout -- .  (tools/seedtest.sh)" % prop,
+                "what_was_run": "tools/seedtest.sh: git -C /repo apply patch.diff; ./check %s quick; git -C /repo checkout -- .  (undo also on interruption; seeded/IN_FLIGHT marker)" % prop,
                 "check_result": {"exit": p.returncode, "detected": detected, "concrete_failing_input": concrete,
                                  "summary": summ[0] if summ else "", "violation_line": re.sub(r"replay=\S+", "replay=<path>", viol[0]) if viol else ""},
                 "wall_s": round(time.time() - t0, 1),
